@@ -339,6 +339,63 @@ func (r *Recorder) Counts() (subs, answered int) {
 	return len(r.subs), r.answered
 }
 
+// Settled tells whether every submission has been answered and no handler goroutine can
+// still be about to re-submit: doPush retries a part until it succeeds or the attempts are
+// used up, and doParse returns on the first failed part while the sibling parts' retry
+// goroutines may still be running. A part (same request struct) is finished when its last
+// submission succeeded or it has been submitted `attempts` times.
+func (r *Recorder) Settled(attempts int) bool {
+	r.mu.Lock()
+	subs := append([]*Submission(nil), r.subs...)
+	r.mu.Unlock()
+	type st struct {
+		n      int
+		lastOK bool
+		direct bool
+	}
+	parts := map[any]*st{}
+	for _, s := range subs {
+		ok, err, _ := s.Answer()
+		if !ok {
+			return false
+		}
+		p := parts[s.Req]
+		if p == nil {
+			p = &st{}
+			parts[s.Req] = p
+		}
+		p.n++
+		p.lastOK = err == nil
+		if s.Tag != 0 {
+			p.direct = true
+		}
+	}
+	for _, p := range parts {
+		if !p.direct && !p.lastOK && p.n < attempts {
+			return false
+		}
+	}
+	return true
+}
+
+// WaitSettled waits for Settled.
+func (r *Recorder) WaitSettled(attempts int, timeout time.Duration) bool {
+	dl := time.Now().Add(timeout)
+	for {
+		if r.Settled(attempts) {
+			// a retry is submitted right after the failed answer; look twice
+			time.Sleep(300 * time.Microsecond)
+			if r.Settled(attempts) {
+				return true
+			}
+		}
+		if time.Now().After(dl) {
+			return false
+		}
+		time.Sleep(200 * time.Microsecond)
+	}
+}
+
 // WaitAnswered waits until every submission has been answered.
 func (r *Recorder) WaitAnswered(timeout time.Duration) bool {
 	dl := time.Now().Add(timeout)
